@@ -174,10 +174,10 @@ PROPS["C10"] = dict(
         H(MRT, "c10_cut2_same_instant_n1t2", fetch=3, unwindset=[DISPATCH(4)], mem=16, bounds="same, dispatch_n_events(2)", tier="thorough"),
         H(MRT, "c10_cut1_n1t2", fetch=3, unwindset=[DISPATCH(3)], mem=16, tier="thorough", bounds="n=1,t=2ns; three events a<=b<=c<=3; dispatch_n_events(1)"),
         H(MRT, "c10_cut2_n1t2", fetch=3, unwindset=[DISPATCH(4)], mem=16, bounds="same, dispatch_n_events(2)", tier="thorough"),
-        H(MRT, "c10_cut1_n2t1", fetch=5, unwindset=[DISPATCH(3)], mem=20, bounds="n=2,t=1ns; three events a<=b<=c<=3; dispatch_n_events(1)", tier="thorough"),
+        H(MRT, "c10_cut1_n2t1", fetch=5, unwindset=[DISPATCH(3)], mem=30, bounds="n=2,t=1ns; three events a<=b<=c<=3; dispatch_n_events(1)", tier="experimental"),
         H(MRT, "c10_paused_add_n1t2", fetch=3, unwindset=[DISPATCH(3)], mem=20, tier="thorough", bounds="n=1,t=2ns; events a<=b<=3; dispatch_n_events(1); add_event(x in a..=4); one dispatch_event"),
         H(MRT, "c10_until_n1t2", fetch=3, unwindset=[DISPATCH(4)], mem=20, tier="thorough", bounds="n=1,t=2ns; two events times<=3; dispatch_events_until(T'<=3) then dispatch_all"),
-        H(MRT, "c10_until_n2t1", fetch=5, unwindset=[DISPATCH(4)], mem=24, tier="thorough", bounds="n=2,t=1ns; two events times<=3; dispatch_events_until(T'<=3)"),
+        H(MRT, "c10_until_n2t1", fetch=5, unwindset=[DISPATCH(4)], mem=30, tier="experimental", bounds="n=2,t=1ns; two events times<=3; dispatch_events_until(T'<=3)"),
     ],
 )
 
